@@ -34,8 +34,8 @@ GMain ==
   \/ M_Spawn /\ Log("M_Spawn", "main", 0, <<>>)
   \/ M_WaitAll /\ Log("M_Wait", "main", 0, <<>>)
   \/ M_Report /\ Log("M_Report", "main", 0, ReportEvs)
-  \/ M_NoIf /\ Log("M_NoIf", "main", 0, <<[ev |-> "noiface"]>> \o (IF FixNoIf THEN <<[ev |-> "mdown"], [ev |-> "mdown"]>> ELSE <<>>)
-                                        \o <<[ev |-> "ret"]>>)
+  \/ M_NoIf /\ Log("M_NoIf", "main", 0, <<[ev |-> "noiface"]>> \o (IF FixNoIf THEN <<>> ELSE <<[ev |-> "ret"]>>))
+  \/ M_NoIfDown /\ Log("M_NoIfDown", "main", 0, <<[ev |-> "mdown"], [ev |-> "mdown"], [ev |-> "ret"]>>)
   \/ M_Prop /\ Log("M_Prop", "main", 0, E1("up"))
   \/ M_PropDisc /\ Log("M_PropDisc", "main", 0, IF stopping THEN <<>> ELSE IF reg = {} THEN <<[ev |-> "noiface"]>>
                                                  ELSE <<[ev |-> "up"], [ev |-> "disc_new"]>>)
@@ -82,7 +82,7 @@ GReq(r) ==
 GBegin(r) == R_Begin(r) /\ lastObs /\ Log("R_Begin", r, 0, <<[ev |-> "req_b", kind |-> RKind[r]]>>)
 
 (* canonical schedule *)
-MainFast == M_LoopTest \/ M_Clear \/ M_LoopHead \/ M_Cfg \/ M_Dict \/ M_Spawn \/ M_WaitAll \/ M_Report \/ M_NoIf
+MainFast == M_LoopTest \/ M_Clear \/ M_LoopHead \/ M_Cfg \/ M_Dict \/ M_Spawn \/ M_WaitAll \/ M_Report \/ M_NoIf \/ M_NoIfDown
             \/ M_Prop \/ M_PropDisc \/ M_Disc \/ M_Join \/ M_ShutMods \/ M_HookTest \/ M_LogDown
 ReqRunning == {r \in Req : rpc[r] \notin {"idle", "done"} /\ ENABLED ReqStep(r)}
 IfaceFast(i) == I_Begin(i) \/ (I_Construct(i) /\ kind[i] # "late") \/ I_Register(i) \/ I_Trigger(i) \/ I_ServeBegin(i)
